@@ -65,7 +65,7 @@ SpecStep(r) ==
   CASE r.act = "tick"          -> Tick(e.x)
     [] r.act = "registerTLD"   -> RegisterTLD(e.S, e.via, e.n, e.m, e.x)
     [] r.act = "register"      -> Register(e.S, e.via, e.n, e.o, e.m, e.x)
-    [] r.act = "transfer"      -> Transfer(e.S, e.via, e.n, e.o)
+    [] r.act = "transfer"      -> Transfer(e.S, e.via, e.n, e.o, e.d)
     [] r.act = "renew"         -> Renew(e.S, e.via, e.n, e.x)
     [] r.act = "setAdmin"      -> SetAdmin(e.S, e.via, e.n, e.o)
     [] r.act = "updateSOA"     -> UpdateSOA(e.S, e.via, e.n, e.m, e.x)
